@@ -43,3 +43,21 @@ package executor
 //@   requires typeid(service.txpoolInstance) != 0
 //@   requires [wf] forall a common.Address :: balOf(a) >= 0
 //@   ensures [funded] result0 && flag(IsProposal015) ==> has(context, "contractData") && istype(context["contractData"], *ContractRawData) && balOf(hexAddr(tx.Source)) >= unbox(context["contractData"], *ContractRawData).GasLimit * 1000000000 + big(unbox(context["contractData"], *ContractRawData).TransferValue)
+
+// ---------------------------------------------------------------------------------------------
+// Refund transactions (C20): when the executor reports success, a credit for the sender is in the block
+// context's refund map - whatever the map already held for that payout height (the map stores the lists by
+// value, so a list that was appended to has to be written back).
+//@ type RefundMap = map[uint64]types.RefundInfoList
+//@ spec abstract fn hexBytes(s string) Bytes
+//@ func ext_fromHex
+//@   option trusted extern=com.tuntun.rangers/node/src/common.FromHex
+//@   ensures bytes(result) == hexBytes(arg0)
+//@   modifies nothing
+
+//@ func minerRefundExecutor.Execute
+//@   property C20
+//@   option intmode=math
+//@   requires this != nil && this.logger != nil && context != nil
+//@   requires [ctx!init] has(context, "situation") && istype(context["situation"], string) && has(context, "refund") && istype(context["refund"], RefundMap) && unbox(context["refund"], RefundMap) != nil
+//@   ensures [scheduled] result0 && header != nil && transaction != nil && transaction.Sign != nil ==> exists h uint64 :: has(unbox(context["refund"], RefundMap), h) && schedHas(unbox(context["refund"], RefundMap)[h].List, hexBytes(transaction.Source))
